@@ -385,3 +385,29 @@ def Agree(inp, tab, ev):
     ok2, v2 = call(pub_root.derive_path, path)
     ev["res"] = {"ok": True, "v": {"prv": dict(ok=ok1, **(node_view(v1) if ok1 else {})),
                                    "pub": dict(ok=ok2, **(node_view(v2) if ok2 else {}))}}
+
+
+@act
+def CkdSeq(inp, tab, ev):
+    """several derivations on SHARED node objects, some of them driven into the invalid classes"""
+    from . import refwallet as W
+    from .recorders import PrfTap
+    prf = make_prf(inp.get("prf"))
+    rroot = ref_node(tab, inp["root"])
+    rres = []
+    for st in inp["steps"]:
+        src = rroot if st["from"] == 0 else rres[st["from"] - 1]
+        rres.append(W.ckd(tab, src, int.from_bytes(bytes(st["i"]), "big"), prf) if src is not None else None)
+    root = py_node(inp["root"])
+    res, objs = [], []
+    with PrfTap(prf):
+        for st in inp["steps"]:
+            src = root if st["from"] == 0 else objs[st["from"] - 1]
+            if src is None:
+                objs.append(None)
+                res.append({"ok": False, "exc": "source-missing"})
+                continue
+            ok, v = call(src.ckd, int.from_bytes(bytes(st["i"]), "big"))
+            objs.append(v if ok else None)
+            res.append({"ok": True, "node": node_json(v)} if ok else {"ok": False, "exc": type(v).__name__})
+    ev["res"] = {"ok": True, "v": res}
